@@ -23,7 +23,7 @@ func init() {
 	register(&Prop{ID: "C14", Run: c14Run,
 		Rule: "item texts (VALUE RANGE; foreach, callrep and nest records): plain words and — one item in three — texts with leading / trailing / inner white space (space, tab, NBSP, NEL, CR, line ends), white-space-only and empty texts, letter-case twins, non-ASCII incl. supplementary-plane characters and U+FFFD, characters that look like syntax ({ } ( ) [ ] = : # ! \\ / . ~ -), digit strings beyond 64 bits and at 2^53+1, boolean / null spellings: the variable is bound to the item AS IT IS (texts yaml.v3 cannot carry through the generated-YAML entry point are left out; keys of a queried container stay path-safe, with letter-case twins). foreach: item source {literal items, list query, dotted list query, query of a list inside a list (`nest[1]`), query of a SPARSE list the program itself fills through indexed paths (`xs[3]`; the slots in between are padding), leaf query, container query, list of containers, missing path} x NULL entries (YAML nulls, never-written slots, a null leaf; one, several, all of them — a null entry is an item) x variable {default, named} x body {ext trace, log, both} + logging child + failing position {none, top-level abort/ext-fail (first item), conditional child at the first flagged item, non-boolean condition}, x the body WRITES INTO THE LIST IT ITERATES OVER (sources list, deep, nested, sparse, clist: a template operation overwrites one slot in place on every pass — a slot visited later, the current one, one visited before, the slot after the last —: the items are the entries the list had when the loop started) x a child of the body logs a template that FAILS WHILE IT IS EXECUTED after having produced output (the line is the text as it stands, the lines rendered after it are what they are without it) x the same forEach operation VALUE executed twice (the second run does what the first did) x a log operation after the forEach / after the call that reads the variable / the arguments through a TEMPLATE (gone for the template engine's snapshot as for Lookup), with the direct predicates closed-form trace AND number of passes through the body == number of items (counted on listener events, whatever the body prints) AND final data == data at loop start except for the written slot; first the smallest such records, then random ones; loop: bound n in 0..6 x failure in iteration k (body or post) x counter written by post or body x with/without init; call: argsPath {default, single key, dotted 2 and 3, templated} x static (a text of the value range above, passed as it is) / templated argument x an argument (top-level and nested) whose template fails while it is executed after having produced output (it is passed as the text it is, the others rendered) x nested callee with its own argsPath x failure {none, inner, outer} x pre-existing data at the path's parent; callrep: ONE call operation that runs m = 0..5 times with argument templates (top-level and nested) whose input changes between the runs — in a loop body (input = counter), in a forEach body (input = item; call directly among the body's operations or in a `steps` child; literal items / list query) or as the same operation value passed to Execute repeatedly — x argsPath x failure from the k-th run on: the m-th run must see the arguments rendered against the data of the m-th run (closed-form trace); defs: all sequences of length<=4 over {define f=first, define f=second, define g, call f, call g, call undefined}; nest: 1..3 iteration mechanisms nested in each other — forEach (literal items / list query whose list may hold null entries, default or custom variable) / loop (bound 0..3) / call, each holding the next one among its body's OPERATIONS or in a `steps` child — whose innermost body reads every variable in scope when it runs (call arguments, or a template operation printed by a callable), x optional ext trace per body x failure from the k-th innermost run on: closed-form trace = product of the layers' items in order up to the failure, variables and arguments gone, nothing else disturbed; rand: random nested programs (texts now and then hold a template that fails while it is executed or does not parse; forEach in forEach — also over lists with null entries and over a null leaf —, loops and calls inside bodies, set/template bodies — some template operations write into a slot of one of the lists the program iterates over —, conditions that may be blank, depth<=3) compared with the model and with the independent Go reference interpreter of c12_ref.go (direct predicate; the reference answers inside its domain: plain dotted key paths, container queries with at most one key). Every program runs twice (Go structs, generated YAML). Non-trivial: at least one iteration / call actually executes. Distinct = distinct canonical case JSON.",
 		Assumptions: []string{
-			"template semantics owned by the model: literal text and {{ .a.b }} field chains of scalars; strconv.ParseBool",
+			"template semantics owned by the model: literal text and {{ .a.b }} field chains of scalars; strconv.ParseBool; trimming (template operations with trim, conditions) strips what strings.TrimSpace strips — unicode.IsSpace, NBSP and NEL included: the model's `trim` lists the same characters",
 			"loop counters are written by the harness' own ext action `inc` (data[id]++, data[id_go] := data[id] < n, data[id_end] := !(data[id] < n)), mirrored by the model",
 			"container queries: Go map order is unspecified, so traces are compared as multisets and bodies have per-item disjoint effects",
 			"variable names / argument paths are not otherwise present in the data (the property's domain); bodies do not write below the loop variable",
